@@ -70,13 +70,13 @@ UNITS = [
          ensures=[("def", "r == (State { root, data })")]),
     Unit(name="State::ok_val", file=F, impl=STATE, fn="ok_val", order=4, serves=["C05"],
          ensures=[("def", "r == (match self.data { Data::Value(v) => Some(v), _ => None })")]),
-    Unit(name="State::reduce", file=F, impl=STATE, fn="reduce", order=4, serves=["C02", "C01"],
+    Unit(name="State::reduce", calls=['Data::reduce'], file=F, impl=STATE, fn="reduce", order=4, serves=["C02", "C01"],
          ensures=[
              ("root", "r.root == self.root"),
              ("concat", "is_nodes(self.data) && is_nodes(other.data) ==> is_nodes(r.data) && nodes(r.data) == nodes(self.data) + nodes(other.data)"),
              ("value", "!(is_nodes(self.data) && is_nodes(other.data)) ==> r.data is Nothing"),
          ]),
-    Unit(name="State::flat_map", file=F, impl=STATE, fn="flat_map", order=4, serves=["C02", "C01"],
+    Unit(name="State::flat_map", calls=['Data::flat_map'], file=F, impl=STATE, fn="flat_map", order=4, serves=["C02", "C01"],
          requires=[("total", "forall|p: Pointer<'a, T>| f.requires((p,))")],
          ensures=[
              ("root", "r.root == self.root"),
